@@ -18,8 +18,11 @@ def grid_matrix(q):
         I("small", 3, "TR", st="uint8_t", alloc="ledgerrealloc"),
         I("small", 2, "NTR", st="int8_t", alloc="ledgerstd"),
     ]
+    # fixed capacity equal to the maximum of the (default) size_type: FixedCapacityVector<T,255> uses uint8_t
+    m += [I("fixed", 255, "TR", st="uint8_t"), I("fixed", 127, "NTR", st="int8_t")]
     if not q:
-        m += [I("vector", 0, "TR", st="int8_t", alloc="ledgerrealloc"), I("vector", 0, "NTR", st="uint8_t", alloc="ledgerstd"),
+        m += [I("fixed", 255, "NTR", st="uint8_t"), I("fixed", 255, "TC4", st="uint16_t"),
+              I("vector", 0, "TR", st="int8_t", alloc="ledgerrealloc"), I("vector", 0, "NTR", st="uint8_t", alloc="ledgerstd"),
               I("small", 5, "TC4", st="int8_t", alloc="ledgerbasic"), I("small", 1, "PTN", st="uint8_t", alloc="ledgerstd"),
               I("small", 3, "NTR", st="uint8_t", alloc="ledgerstd"), I("vector", 0, "TC12", st="uint8_t", alloc="ledgerbasic")]
     return m
@@ -55,7 +58,7 @@ def run(ctx):
         for f in res["failures"]:
             parts = f.split("|")
             sig = "G08|%s|%s|%s|%s" % (i["flavour"], e1._vcat(i), parts[0], e1.norm(parts[-1]))
-            case = "|".join(parts[:4])
+            case = "|".join(parts[:5] if len(parts) > 5 and parts[4] == "exactcap" else parts[:4])
             cmd = "%s --case '%s'" % (binp, case)
             rc2, out2, _ = vlib.run([binp, "--case", case], timeout=120)
             if rc2 == 0:
